@@ -566,6 +566,61 @@ OVERRIDES = dict(len=vc_len, range=vc_range, enumerate=vc_enumerate, zip=vc_zip,
                  isinstance=vc_isinstance, str=vc_str, _vc_listcomp=vc_listcomp)
 
 
+EXTRACTED_LOCALS = {}
+_PINNED = None
+
+
+def _pinned_locals():
+    global _PINNED
+    if _PINNED is None:
+        import json
+        from . import VERIF
+        try:
+            _PINNED = json.load(open(os.path.join(VERIF, "expected", "locals.json")))
+        except Exception:
+            _PINNED = {}
+    return _PINNED
+
+
+def local_order(fn):
+    """parameter names, then local names in the order of their first binding in the source"""
+    out = []
+    a = fn.args
+    for x in a.posonlyargs + a.args + ([a.vararg] if a.vararg else []) + a.kwonlyargs + ([a.kwarg] if a.kwarg else []):
+        out.append(x.arg)
+
+    class V(ast.NodeVisitor):
+        def visit_Name(self, n):
+            if isinstance(n.ctx, ast.Store) and n.id not in out:
+                out.append(n.id)
+
+        def visit_FunctionDef(self, n):
+            if n is not fn:
+                if n.name not in out:
+                    out.append(n.name)
+                return
+            self.generic_visit(n)
+
+        def visit_Lambda(self, n):
+            return
+
+        def visit_ListComp(self, n):
+            return
+        visit_SetComp = visit_DictComp = visit_GeneratorExp = visit_ListComp
+    V().visit(fn)
+    return out
+
+
+class _Aliased(dict):
+    """a locals dict in which the pinned names of renamed locals resolve to their current values"""
+
+    def __init__(self, d, alias):
+        dict.__init__(self, d)
+        for old, new in alias.items():
+            if new in d and old not in d:
+                dict.__setitem__(self, old, d[new])
+
+
 class LoopRT:
     """runtime object of one dynamic loop instance"""
 
@@ -604,6 +659,7 @@ class LoopRT:
         for m in self.modified:
             if isinstance(st.get(m), list):     # concrete python list at loop entry: same view as SymList
                 st[m] = SymList.from_list(st[m])
+        st = _Aliased(st, self.owner.alias)
         st["_phase"] = phase
         st["_k"] = self.k
         st["_N"] = self.N
@@ -612,7 +668,7 @@ class LoopRT:
         return st
 
     def init(self, loc):
-        self.pre_state = {k: v for k, v in loc.items() if not k.startswith("_vc_")}
+        self.pre_state = _Aliased({k: v for k, v in loc.items() if not k.startswith("_vc_")}, self.owner.alias)
         self.pre_snap = {n: (v._at if isinstance(v, EArr) else None) for n, v in loc.items() if isinstance(v, EArr)}
         self.k = 0
         self._prove_all("init", self._state(loc, "init"))
@@ -669,7 +725,7 @@ class LoopRT:
                 setattr(o, attr, nv)
         hook = getattr(self.spec, "on_havoc", None)
         if hook:
-            hook(loc, self)
+            hook(_Aliased(loc, self.owner.alias), self)
         new = dict(loc)
         for m in self.modified:
             v = loc.get(m, _UNBOUND)
@@ -680,7 +736,7 @@ class LoopRT:
         for name, inv in self._invs(st):
             if not name.startswith("hint:"):
                 e.assume(inv)
-        self._hv_state = new
+        self._hv_state = _Aliased(new, self.owner.alias)
         if len(self.modified) == 0:
             return None
         return tuple(out)
@@ -878,9 +934,23 @@ class Extracted:
             fn.args.kwarg.annotation = None
         fn.decorator_list = []
         self.digest = source_digest(relpath, qual)
+        # renamed locals: the contract speaks in the names of the pinned source; if the current function binds the same number of
+        # locals in the same order of first binding, names that differ are aliases (pinned name -> current name)
+        self.local_names = local_order(fn)
+        EXTRACTED_LOCALS[target] = self.local_names
+        pinned = _pinned_locals().get(target)
+        self.alias = {}
+        if pinned and pinned != self.local_names and len(pinned) == len(self.local_names):
+            self.alias = {a: b for a, b in zip(pinned, self.local_names) if a != b}
+            if set(self.alias) & set(self.local_names):       # a pinned name is still in use for something else: not a pure renaming
+                self.alias = {}
+        self.unalias = {b: a for a, b in self.alias.items()}
         cutter = LoopCutter(self.name)
         fn = cutter.visit(fn)
         self.loops = cutter.loops
+        for info in self.loops.values():                       # contracts see the pinned names
+            info["modified_current"] = list(info["modified"])
+            info["modified"] = [self.unalias.get(m, m) for m in info["modified"]]
         mod = ast.Module(body=[fn], type_ignores=[])
         ast.fix_missing_locations(mod)
         self.transformed_src = ast.unparse(mod)
@@ -944,3 +1014,17 @@ class patched_globals:
                 self.module.__dict__.pop(k, None)
             else:
                 self.module.__dict__[k] = v
+
+
+def like(real_fn, impl):
+    """a stand-in for `real_fn` that accepts exactly the calls the real function accepts (positional or keyword) and hands
+    the arguments to `impl` by the REAL parameter names"""
+    import inspect
+    sig = inspect.signature(real_fn)
+
+    def stand_in(*a, **k):
+        b = sig.bind(*a, **k)
+        b.apply_defaults()
+        return impl(**b.arguments)
+    stand_in.__name__ = getattr(real_fn, "__name__", "stand_in")
+    return stand_in
